@@ -536,7 +536,8 @@ pub fn c03_race(prop: &'static str, seed: u64, rounds: u32, replay_out: &str, pa
                         break;
                     }
                     let cap = [1usize, 2, 8, 32][next(4) as usize];
-                    let cause = next(4) as u8;
+                    // C12 is about failing actors only: the handler panic
+                    let cause = if prop == "C12" { 0 } else { next(4) as u8 };
                     let blocking = next(2) == 0 || prop == "C17";
                     let askers = 1 + next(if blocking { 4 } else { 12 }) as usize;
                     let jitter = next(400) as u32;
